@@ -7,9 +7,10 @@ from vlib import *
 import zoo, flowcheck as fc
 from . import register
 
-def join_inst(n1, n2, sep, mod, buf):
-    procs = [zoo.src("s1", zoo.items(n1, "a")), zoo.cmd("a1", ["in"]), dict(name="ss", kind="substream")]
-    edges = [zoo.E("s1.out", "a1.in"), zoo.E("a1.out", "ss.in")]
+def join_inst(n1, n2, sep, mod, buf, twoout=False):
+    """twoout: the first producer has two out-ports, both fanned into the sub-stream (two members written by the same task)"""
+    procs = [zoo.src("s1", zoo.items(n1, "a")), zoo.cmd("a1", ["in"], ["o1", "o2"] if twoout else ["out"]), dict(name="ss", kind="substream")]
+    edges = [zoo.E("s1.out", "a1.in")] + ([zoo.E("a1.o1", "ss.in"), zoo.E("a1.o2", "ss.in")] if twoout else [zoo.E("a1.out", "ss.in")])
     if n2 >= 0:
         procs += [zoo.src("s2", zoo.items(n2, "b")), zoo.cmd("a2", ["in"])]
         edges += [zoo.E("s2.out", "a2.in"), zoo.E("a2.out", "ss.in")]
@@ -76,9 +77,10 @@ def check_C18(tier):
                     if thorough or rng.random() < 0.35 or (n >= 2 and mod and sep == " "):
                         cases.append((n, -1, sep, mod, buf))
     cases += [(2, 2, ",", "", 1), (3, 2, " ", "%.txt", 2), (1, 3, ":", "basename", 1), (12, -1, " ", "", 2), (9, 11, ",", "%.txt", 1)]
+    cases = [c + (False,) for c in cases] + [(1, -1, " ", "", 1, True), (2, -1, ",", "", 2, True), (3, 2, " ", "%.txt", 1, True)]
     def one(c):
-        n1, n2, sep, mod, buf = c
-        inst = join_inst(n1, n2, sep, mod, buf)
+        n1, n2, sep, mod, buf, twoout = c
+        inst = join_inst(n1, n2, sep, mod, buf, twoout)
         procs = ["a1"] + (["a2"] if n2 >= 0 else [])
         vs = fc.jitter_variants(random.Random(rng.random()), 3 if thorough else 2, bufs=(buf,), procs=procs)
         rrs = fc.real_runs(inst, vs)
@@ -89,8 +91,8 @@ def check_C18(tier):
         res = run_tlc("JoinTrace", "JoinTrace.cfg", files={"trace.ndjson": ndjson(rows)}, workers=1, timeout=120)
         return c, inst, rrs, info, res
     for c, inst, rrs, info, res in pmap(one, cases, workers=8):
-        n1, n2, sep, mod, buf = c
-        label = "lengths (%d,%d) sep %r modifier %r bufsize %d" % (n1, n2, sep, mod, buf)
+        n1, n2, sep, mod, buf, twoout = c
+        label = "lengths (%d,%d) sep %r modifier %r bufsize %d%s" % (n1, n2, sep, mod, buf, " (first producer: two out-ports into the sub-stream)" if twoout else "")
         for rr, (members, argv) in zip(rrs, info):
             chk.evaluations += 1
             if rr.timeout or rr.deadlock:
@@ -101,7 +103,7 @@ def check_C18(tier):
                 missing = [a for a in argv if "o/%s" % os.path.basename(a) not in rr.snapshot]
                 if missing:
                     chk.violation("paths in the join placeholder do not resolve from the task's working directory: %s (%s)" % (missing[:3], label), dict(instance=inst))
-            want = (n1 if n1 > 0 else 0) + (n2 if n2 > 0 else 0)
+            want = (n1 if n1 > 0 else 0) * (2 if twoout else 1) + (n2 if n2 > 0 else 0)
             if members is not None and len(members) != want:
                 chk.violation("joined task got %d files, the sub-stream has %d (%s)" % (len(members), want, label), dict(instance=inst, members=members))
         if res.error:
